@@ -3,7 +3,8 @@
    Models: model/Icc.v (jcicc.c, jdicc.c), model/MarkerRT.v (jcmarker.c, jcapimin.c, jdmarker.c,
    jdapimin.c), model/CopyMarkers.v (transupp.c, tj3Transform); constants: gen/GenIccConst.v. *)
 From Coq Require Import List ZArith Bool Permutation.
-From LJT Require Import lib.Sweep gen.GenIccConst model.MarkerRT model.Icc model.CopyMarkers model.TjHeader
+From LJT Require Import lib.Sweep gen.GenIccConst model.MarkerRT model.Icc model.CopyMarkers model.TjHeader model.MarkerSuspend
+  proofs.MarkerSuspendProofs proofs.CopyHistory
   proofs.TjProofs proofs.C16Consts proofs.IccProofs proofs.IccRoundTrip proofs.IccFast proofs.MarkerProofs proofs.CopyProofs proofs.HeaderProofs.
 Import ListNotations.
 Local Open Scope Z_scope.
@@ -135,6 +136,17 @@ Theorem C16_marker_roundtrip : forall c segs, (forall k, 0 <= c k) -> Forall seg
 Proof. exact markers_roundtrip. Qed.
 Print Assumptions C16_marker_roundtrip.
 
+(* (4) through a SUSPENDING data source: for every way of delivering the stream in chunks (susp_run: a suspension is
+   answered with the next chunk; save_marker is resumable, its length word is committed before the data) the saved
+   markers are those of the one-buffer read *)
+Theorem C16_marker_any_chunking : forall c segs rest chunks h acc, (forall k, 0 <= c k) -> Forall seg_ok segs -> stops rest ->
+  exists bytes, write_markers segs = Some bytes /\
+    (concat chunks = bytes ++ rest ->
+     forall fuel, (length chunks + length (bytes ++ rest) + 3 * length segs < fuel)%nat ->
+       ss_acc (fst (susp_run fuel c (mkSstate h acc PIdle 0) [] chunks)) = acc ++ flat_map (saved_under c) segs).
+Proof. exact markers_any_chunking. Qed.
+Print Assumptions C16_marker_any_chunking.
+
 Theorem C16_save_limits_wellformed : forall c code limit, cfg_wf c -> 0 <= limit ->
   cfg_wf (jpeg_save_markers c code limit).
 Proof. exact jpeg_save_markers_wf. Qed.
@@ -249,6 +261,31 @@ Theorem C16_copy_end_to_end : forall opt wj wa segs rest, 0 <= opt < 5 ->
 Proof. exact copy_end_to_end. Qed.
 Print Assumptions C16_copy_end_to_end.
 
+(* (6) histories on ONE decompressor: save requests only accumulate (jcopy_markers_setup adds, tj3DecompressHeader adds
+   APP2); whatever limits c0 earlier uses left behind, the markers written are the policy sub-list for the CURRENT option *)
+Theorem C16_copy_setup_over_history : forall opt c0 code, 0 <= opt < 5 -> 0 <= code < 256 ->
+  copy_setup opt c0 code = if selected opt code then COPY_SAVE_LIMIT else c0 code.
+Proof. exact copy_setup_over_history. Qed.
+Print Assumptions C16_copy_setup_over_history.
+
+Theorem C16_copy_any_earlier_limits : forall c0 opt wj wa segs rest, (forall k, 0 <= c0 k) -> 0 <= opt < 5 ->
+  Forall seg_ok segs -> Forall (fun s => Forall is_byte (snd s)) segs -> stops rest ->
+  exists bytes, write_markers segs = Some bytes /\
+    forall fuel, (length segs < fuel)%nat ->
+      copy_pipeline_from c0 opt opt wj wa fuel (bytes ++ rest)
+      = Some (filter (fun s => policy opt wj wa (saved_of s)) segs).
+Proof. exact copy_end_to_end_from. Qed.
+Print Assumptions C16_copy_any_earlier_limits.
+
+Theorem C16_copy_history_independent : forall hist opt wj wa segs rest, 0 <= opt < 5 ->
+  Forall seg_ok segs -> Forall (fun s => Forall is_byte (snd s)) segs -> stops rest ->
+  exists bytes, write_markers segs = Some bytes /\
+    forall fuel, (length segs < fuel)%nat ->
+      copy_pipeline_from (history_cfg hist) opt opt wj wa fuel (bytes ++ rest)
+      = Some (filter (fun s => policy opt wj wa (saved_of s)) segs).
+Proof. exact copy_history_independent. Qed.
+Print Assumptions C16_copy_history_independent.
+
 (* tj3Transform + tj3SetICCProfile: never two profiles (generated fact TJ_TRANSFORM_ICC_UNCONDITIONAL = 0; this
    obligation fails to type-check if the instance profile is written unconditionally again) *)
 Theorem C16_tj_transform_single_icc :
@@ -282,6 +319,18 @@ Example C16_ex_tj_transform_regression :
   | None => false
   end = true.
 Proof. exact tj_transform_regression_check. Qed.
+(* a stream cut right after a length word, and a wider-then-narrower history *)
+Example C16_ex_chunking :
+  let segs := [(M_COM, [65; 66; 67]); (M_APP0 + 3, [1; 2; 3; 4; 5])] in
+  let c := jpeg_save_markers (jpeg_save_markers cfg_init M_COM 65535) (M_APP0 + 3) 2 in
+  let stream := segs_bytes segs ++ [255; M_DQT] in
+  map (fun m => (sm_code m, sm_orig m, sm_data m))
+      (ss_acc (fst (susp_run 100 c (mkSstate hinfo_init [] PIdle 0) [] [firstn 4 stream; firstn 7 (skipn 4 stream); skipn 11 stream])))
+  = [(M_COM, 3, [65; 66; 67]); (M_APP0 + 3, 5, [1; 2])].
+Proof. exact ex_chunking. Qed.
+Example C16_ex_history_wider : history_cfg [HSetup JCOPYOPT_ALL] (JPEG_APP0 + 2) = COPY_SAVE_LIMIT /\
+  selected JCOPYOPT_COMMENTS (JPEG_APP0 + 2) = false.
+Proof. exact ex_history_wider. Qed.
 Example C16_ex_icc_bad :
   let a := mkSaved M_APP2 17 (icc_sig_writer ++ [1; 2; 9; 9; 9]) in
   let b := mkSaved M_APP2 15 (icc_sig_writer ++ [1; 2; 7]) in
